@@ -1254,7 +1254,22 @@ func (e *Exec) rangeStart(v Value) Value {
 				order = append(order, i)
 			}
 		}
-		if e.mapOrder && len(order) > 1 {
+		if e.mapOrder && len(order) > 4 {
+			// too many permutations: three representative orders (insertion, reversed, rotated)
+			e.Stubs["map iteration order of maps with more than 4 entries: 3 representative orders only"] = true
+			if e.bigMapOrder < 0 {
+				e.bigMapOrder = e.choose(3) // one choice per path, applied to every large map
+			}
+			switch e.bigMapOrder {
+			case 1:
+				for i, j := 0, len(order)-1; i < j; i, j = i+1, j-1 {
+					order[i], order[j] = order[j], order[i]
+				}
+			case 2:
+				h := len(order) / 2
+				order = append(append([]int{}, order[h:]...), order[:h]...)
+			}
+		} else if e.mapOrder && len(order) > 1 {
 			// nondeterministic iteration order: choose a permutation
 			rest := append([]int{}, order...)
 			order = order[:0]
